@@ -88,6 +88,9 @@ func coinsSame(a, b sdk.Coins) bool {
 }
 
 func (ch *chain) addrOf(i int) sdk.Address {
+	if i == 200 {
+		return sdk.Address{}
+	}
 	if i >= 100 {
 		return authtypes.NewModuleAddress(simModuleAccounts[mod(i-100, len(simModuleAccounts))])
 	}
